@@ -50,7 +50,8 @@ impl Span {
     /// invalid.
     pub fn try_get_content<'a>(&self, source: &'a [char]) -> Option<&'a [char]> {
         if (self.start > self.end) || (self.start >= source.len()) || (self.end > source.len()) {
-            if self.is_empty() {
+            // Not `is_empty()`: `len()` underflows when `start > end`.
+            if self.start == self.end {
                 return Some(&source[0..0]);
             }
             return None;
